@@ -307,6 +307,12 @@ func (c *Chunk) ReadFrom(r io.Reader) (int64, error) {
 	}
 
 	bitsForHeight := bits.Len( /* chunk height in blocks */ uint(len(c.Sections))*16 + 1)
+	// NewBitStorage panics on a wrong length; the height maps come from the peer
+	for _, hm := range [][]uint64{heightmaps.MotionBlocking, heightmaps.WorldSurface} {
+		if hm != nil && len(hm) != calcBitStorageSize(bitsForHeight, 16*16) {
+			return n, fmt.Errorf("level: height map has %d longs, expected %d", len(hm), calcBitStorageSize(bitsForHeight, 16*16))
+		}
+	}
 	c.HeightMaps.MotionBlocking = NewBitStorage(bitsForHeight, 16*16, heightmaps.MotionBlocking)
 	c.HeightMaps.WorldSurface = NewBitStorage(bitsForHeight, 16*16, heightmaps.WorldSurface)
 
